@@ -36,6 +36,10 @@ type Document struct {
 	stylesRelationshipID string
 	// styles.xml 是否由本库根据样式管理器生成（而不是来自打开的文档/模板）
 	stylesGenerated bool
+	// 本文档的编号管理器（编号定义属于文档，不在文档之间共享）
+	numberingManager *NumberingManager
+	// 本文档的脚注/尾注管理器
+	footnoteManager *FootnoteManager
 }
 
 // Body 表示文档主体
